@@ -2,6 +2,6 @@ INIT Init
 NEXT Next
 CONSTANTS
   BS = 5
-  FLO = -1
+  FNEG = 1
   FHI = 4
 CHECK_DEADLOCK FALSE
